@@ -559,7 +559,7 @@ def make_affine(name, consts):
                   vec_types=["IN_VEC_T", "B_IN_VEC_T"], method="const AFFINE_SELF_T *self", members=["m_transform"],
                   subst=[(r"(?s)covfie::algebra::vector\s*<\s*contravariant_input_t::dimensions\s*,\s*typename\s+contravariant_input_t::scalar_t\s*>", "VEC_N", 0, True),
                          (r"=\s*m_transform\s*\*\s*v\s*;", "= affine_apply(&m_transform, &v);", 0, True)] + LAYER_SUBST + [("m_backend.at(", "backend_at(", 0)],
-                  mats={"v": (".", "vec"), "nv": (".", "vec")}))
+                  mats={"v": (".", "vec"), "nv": (".", "vec"), "m_transform": (".", "mat")}))
     return Unit(name, fns, "contracts/affine.h", "lemmas/affine.c", stubs=["stubs/backend.h"])
 
 
